@@ -14,6 +14,9 @@ Lemma km_identity_ok : km_identity = Some true.
 Proof. vm_compute. reflexivity. Qed.
 Lemma ruleless_instance_recomputes_ok : ruleless_instance_recomputes = Some true.
 Proof. vm_compute. reflexivity. Qed.
+(* the rule of a memento function recomputes that function's code hash (it covers default values, which are objects) *)
+Lemma code_hash_refreshed_ok : code_hash_refreshed = Some true.
+Proof. vm_compute. reflexivity. Qed.
 
 Definition current_ki : bool := match km_identity with Some b => b | None => false end.
 
